@@ -89,3 +89,23 @@ def register(reg):
         "Trusted: Qhull facets, inscribed-ball depth bounds. For smooth shapes a residual overlap is only reported with a "
         "certificate (sound, not complete). Blind spot: contact position when depth >= smallest extent (K14).",
         "DESIGN.md section 4 C08")
+
+    reg("C13",
+        "runtime oracle monitor on the eight points_in_* predicates (certified depth / exact distance), batch-independence monitor (permuted and split batches), cross monitors against point_to_* distances and collider support values",
+        "2 400 (quick) / 40 000 (thorough) shapes x 300-point batches generated from the shape itself (boundary +- 1e-6, "
+        "apex/rim/corner neighbourhoods, axis points): ~600 000 judged points per quick run; True required at depth >= 1e-9 L, "
+        "False at distance >= 1e-9 L, identical answers for permuted/split batches; agreement with point_to_box/disk/cylinder/"
+        "ellipsoid and with the collider support value outside the band.",
+        "Trusted: oracle depth (certified lower bound) and distance closed forms. The disk's True side is judged only for "
+        "exactly representable in-plane points.",
+        "DESIGN.md section 4 C13")
+    reg("C18",
+        "runtime oracle monitor with an exact rational (fractions.Fraction) min-norm oracle over exhaustively enumerated lattice configurations plus random real configurations",
+        "All 1-3 point configurations over {-1,0,1}^3 (20 439) in every run; 4-point configurations: 60 000 sampled (quick) / "
+        "all 531 441 (thorough), {-2..2}^3 sampled 200 000 (thorough); 12 000 / 100 000 random real configurations (aspect "
+        "ratios over 12 orders, near-dependent, duplicates). Both the Jolt solver and the original backup procedure must return "
+        "the exact minimum norm (1e-9 of the configuration size), a subset whose hull contains the point, and convex weights "
+        "that reproduce it. Known: K15 (absolute thresholds below unit scale), K16 (aspect ratio >= 100).",
+        "Trusted: exact rational arithmetic. Blind spots: configurations with all points within 0.1 of the origin (K15) and "
+        "aspect ratio >= 100 (K16) are only checked up to the recorded magnitude.",
+        "DESIGN.md section 4 C18")
